@@ -15,7 +15,7 @@ TIME = {'quick': 100, 'thorough': 800}
 RULE = ('histories: action kind (snapshot/log/metric/span) x fire_count text x fire_period text x window x up to 40 '
         'hits with scripted clock (boundary spacings: exactly period, +-1 ns, backwards steps) and per-hit condition '
         '(true/false/raising) and, in 30% of the histories, unrelated configuration changes (register/unregister of another tracepoint through the real TracepointConfigService) between hits, driven through the real TriggerHandler.trace_call; a labelled stream in which the service re-sends the tracepoint in a later UPDATE (compared with the per-installation run of the model; the reading of the statement is the known finding C04/update-resets-count); one tracepoint yielding sibling actions (snapshot+metrics+span, metric processor failing part-way: the hit still counts) judged per action; several tracepoints with different limits on one line (merged into one trigger or separate triggers) judged per tracepoint; schedules: all 20 interleavings of '
-        '2 threads x (check, process, record) forced with gates inside the condition and a watch. A case is '
+        '2 threads x (check, process, record) forced with gates inside the condition and a watch, plus 3-4 thread schedules (mutually exclusive ones that are not plain blocks: unstarted / unfinished threads, extra entries; and random interleavings), every thread with its own clock value (not in arrival order, boundary spacings around the period) and condition outcome, half of them with the clock READ as a gated region of its own; the time stamps of the collections are compared with the timed concurrent model (in order when check…record stay mutually exclusive, as a multiset otherwise) and judged against the sequential reference; lifecycle: one tracepoint from the service or registered in code under operation sequences (UPDATE responses with/without it through the real convert_response on protobuf messages, NO_CHANGE, other registrations, register/unregister) judged per installation by a reference written from the statement (an UPDATE that re-sends an installed service tracepoint is the known finding C04/update-resets-count). A case is '
         'non-trivial when at least one hit is rejected by a limit and at least one collects (or, for schedules, when '
         'the threads overlap). Distinct = distinct canonical JSON of the case.')
 TRUSTED = ['threading.Lock/Event, CPython GIL atomicity of one attribute store (regions check/process/record)',
@@ -113,6 +113,93 @@ def all_schedules():
     return sorted(set(itertools.permutations([0, 0, 0, 1, 1, 1])))
 
 
+def thread_clocks(rng, n, per):
+    """clock values of n threads: NOT in the order of arrival; boundary spacings around the period"""
+    step = max(abs(per), 1) * 1_000_000
+    base = 10 ** 9
+    vals = [base]
+    for _ in range(n - 1):
+        vals.append(vals[-1] + rng.choice([0, 1, step - 1, step, step + 1, 2 * step, rng.randint(0, 2 * step)]))
+    if rng.random() < 0.5:
+        rng.shuffle(vals)
+    return vals
+
+
+def mutex_schedule(rng, n):
+    """a schedule that keeps check…record of the threads apart, but is not just blocks: threads that never run,
+    threads left unfinished at the end, extra entries for finished threads"""
+    order = list(range(n))
+    rng.shuffle(order)
+    if rng.random() < 0.3:
+        order = order[:-1]
+    sched = []
+    for k, i in enumerate(order):
+        steps = 3 if (k < len(order) - 1 or rng.random() < 0.6) else rng.choice([1, 2])
+        for _ in range(steps):
+            sched.append(i)
+            if k and rng.random() < 0.3:
+                sched.append(rng.choice(order[:k]))          # a finished thread: nothing happens
+    return sched
+
+
+def gen_schedule3(rng):
+    n = rng.choice([3, 3, 4])
+    fp = rng.choice(['0', '1', '1000'])
+    r = rng.random()
+    if r < 0.55:
+        sched = mutex_schedule(rng, n)
+    else:
+        sched = [i for i in range(n) for _ in range(3)]
+        rng.shuffle(sched)
+    conds = [rng.random() < 0.8 for _ in range(n)]
+    case = {'kind': 'schedule', 'cfg': {'fire_count': rng.choice(['1', '2', '3', '-1']), 'fire_period': fp},
+            'tss': thread_clocks(rng, n, ref_int(fp, 1000)), 'conds': conds, 'sched': sched}
+    if rng.random() < 0.5:
+        # every thread READS ITS CLOCK first (a region of its own, in any order), then the schedule above: the check
+        # order is unrelated to the order of the clock reads
+        reads = [i for i in range(n) if i in sched]
+        rng.shuffle(reads)
+        k = rng.randint(0, len(reads))
+        early, late = reads[:k], reads[k:]
+        out = list(early)
+        for i in sched:
+            if i in late:
+                late.remove(i)
+                out.append(i)           # its clock read right before its first region
+            out.append(i)
+        case['sched'] = out
+        case['clock_gate'] = True
+    return case
+
+
+def gen_lifecycle(rng):
+    """one tracepoint (from the service or registered in code) among configuration changes"""
+    base = gen_history(rng)
+    hits = [h for h in base['hits'] if 'op' not in h]
+    origin = rng.choice(['service', 'code'])
+    cfg = {k: v for k, v in base['cfg'].items() if k in ('fire_count', 'fire_period')}
+    ops, installed = [], False
+    if rng.random() < 0.85:
+        ops.append({'op': 'update', 'present': True} if origin == 'service' else {'op': 'register'})
+        installed = True
+    for h in hits:
+        r = rng.random()
+        if r < 0.30:
+            kind = rng.choice(['update', 'update', 'no_change', 'other_custom', 'own'])
+            if kind == 'update':
+                ops.append({'op': 'update', 'present': rng.random() < 0.6})
+                if origin == 'service':
+                    installed = ops[-1]['present']
+            elif kind == 'own' and origin == 'code':
+                # never a second registration while registered: that would be ANOTHER tracepoint on the same line
+                ops.append({'op': 'unregister'} if installed or rng.random() < 0.2 else {'op': 'register'})
+                installed = ops[-1]['op'] == 'register'
+            elif kind != 'own':
+                ops.append({'op': kind})
+        ops.append({'op': 'hit', 'ts': h['ts'], 'cond': h['cond']})
+    return {'kind': 'lifecycle', 'origin': origin, 'action': base['action'], 'cfg': cfg, 'ops': ops}
+
+
 def gen(rng, tier):
     scheds = all_schedules()
     k = 0
@@ -120,9 +207,14 @@ def gen(rng, tier):
         k += 1
         if k % 12 == 0:
             s = scheds[(k // 12) % len(scheds)]
-            yield {'kind': 'schedule', 'cfg': {'fire_count': rng.choice(['1', '2', '-1']),
-                                               'fire_period': rng.choice(['0', '1000'])},
-                   'tss': [10 ** 9, 10 ** 9 + rng.choice([1, 2 * 10 ** 9])], 'sched': list(s)}
+            fp = rng.choice(['0', '1', '1000'])
+            yield {'kind': 'schedule', 'cfg': {'fire_count': rng.choice(['1', '2', '-1']), 'fire_period': fp},
+                   'tss': thread_clocks(rng, 2, ref_int(fp, 1000)), 'conds': [rng.random() < 0.85, rng.random() < 0.85],
+                   'sched': list(s)}
+        elif k % 12 == 6:
+            yield gen_schedule3(rng)
+        elif k % 12 in (2, 8):
+            yield gen_lifecycle(rng)
         elif k % 12 == 3:
             # several tracepoints on one line, each with its own limits (merged into one trigger, or separate triggers)
             a, b = gen_history(rng, 'snapshot'), gen_history(rng, 'snapshot')
@@ -149,7 +241,7 @@ def gen(rng, tier):
                 hits.insert(rng.randint(1, len(hits)), {'op': 'resend'})
             a['hits'] = hits
             yield a
-        elif tier == 'thorough' and k % 12 == 6:
+        elif tier == 'thorough' and k % 12 == 7:
             n = rng.choice([3, 4])
             if rng.random() < 0.4:          # serial blocks in a random thread order
                 order = list(range(n))
@@ -178,6 +270,18 @@ def corpus():
          'hits': [{'ts': 0, 'cond': 'true'}, {'ts': 5, 'cond': 'true'}], 'no_oracle': True},
         {'kind': 'schedule', 'cfg': {'fire_count': '1', 'fire_period': '1000'}, 'tss': [10 ** 9, 10 ** 9 + 1],
          'sched': [0, 0, 0, 1, 1, 1]},
+        # a registered tracepoint keeps its limits across UPDATE responses; unregistering and registering again starts afresh
+        {'kind': 'lifecycle', 'origin': 'code', 'action': 'snapshot', 'cfg': {'fire_count': '1', 'fire_period': '0'},
+         'ops': [{'op': 'hit', 'ts': 5, 'cond': 'true'}, {'op': 'register'}, {'op': 'hit', 'ts': 10, 'cond': 'true'},
+                 {'op': 'update', 'present': True}, {'op': 'hit', 'ts': 20, 'cond': 'true'}, {'op': 'unregister'},
+                 {'op': 'hit', 'ts': 30, 'cond': 'true'}, {'op': 'register'}, {'op': 'hit', 'ts': 40, 'cond': 'true'},
+                 {'op': 'hit', 'ts': 50, 'cond': 'true'}]},
+        # a service tracepoint: removed by an UPDATE without it, NO_CHANGE and other registrations do not reset it
+        {'kind': 'lifecycle', 'origin': 'service', 'action': 'log', 'cfg': {'fire_count': '2', 'fire_period': '0'},
+         'ops': [{'op': 'update', 'present': True}, {'op': 'hit', 'ts': 10, 'cond': 'true'}, {'op': 'no_change'},
+                 {'op': 'other_custom'}, {'op': 'hit', 'ts': 20, 'cond': 'true'}, {'op': 'hit', 'ts': 30, 'cond': 'true'},
+                 {'op': 'update', 'present': False}, {'op': 'hit', 'ts': 40, 'cond': 'true'},
+                 {'op': 'update', 'present': True}, {'op': 'hit', 'ts': 50, 'cond': 'true'}]},
     ]
 
 
@@ -284,13 +388,26 @@ def run_history(case):
         rig.close()
 
 
+class GateRig(Rig):
+    """the scripted clock can also be a gate: a thread blocks INSIDE its `time_ns()` call (the clock read of
+    TriggerContext, before the limit check) until the driver releases it — the clock read becomes a region of its own"""
+
+    def _now(self):
+        g = getattr(self._tls, 'clock_gate', None)
+        if g is not None:
+            self._tls.clock_gate = None
+            g()
+        return super()._now()
+
+
 class GatedThread:
     """runs one trace_call on its own thread; the condition and a watch are gates the driver releases."""
 
-    def __init__(self, rig, idx, ts):
-        self.rig, self.idx, self.ts = rig, idx, ts
+    def __init__(self, rig, idx, ts, cond=True):
+        self.rig, self.idx, self.ts, self.cond = rig, idx, ts, cond
         self.arrived = threading.Semaphore(0)     # signalled on each gate arrival and on finish
-        self.release = [threading.Event(), threading.Event()]
+        self.release = [threading.Event(), threading.Event(), threading.Event()]
+        self.clock_gate = False
         self.at = -1                              # gate currently blocked at
         self.finished = False
         self.error = None
@@ -301,11 +418,13 @@ class GatedThread:
         self.arrived.release()
         if not self.release[k].wait(20):
             raise TimeoutError('gate %d not released' % k)
-        return True
+        return self.cond if k == 0 else True
 
     def body(self):
         try:
             self.rig.set_thread_clock(self.ts)
+            if self.clock_gate:
+                self.rig._tls.clock_gate = lambda: self.gate(2)
             frame = MockFrame('/app/host.py', 'fn', 7, {'cond': lambda: self.gate(0), 'g2': lambda: self.gate(1)})
             self.rig.handler.trace_call(frame, 'line', None)
         except BaseException as e:  # noqa: B902
@@ -329,14 +448,17 @@ class GatedThread:
 
 
 def run_schedule(case):
-    rig = Rig()
+    rig = GateRig()
     try:
         c = dict(case)
         c['action'] = 'snapshot'
         c['watches'] = ['g2()']
         trig = make_action(rig, c)
         rig.install([trig])
-        thrs = [GatedThread(rig, i, ts) for i, ts in enumerate(case['tss'])]
+        conds = case.get('conds') or [True] * len(case['tss'])
+        thrs = [GatedThread(rig, i, ts, conds[i]) for i, ts in enumerate(case['tss'])]
+        for t in thrs:
+            t.clock_gate = bool(case.get('clock_gate'))
         for i in case['sched']:
             thrs[i].advance()
         for t in thrs:                       # drain whatever the schedule left unfinished
@@ -346,7 +468,9 @@ def run_schedule(case):
             if t.thread is not None:
                 t.thread.join(20)
         errs = [t.error for t in thrs if t.error]
-        return {'collected': len(rig.push.pushed), 'errors': errs}
+        # the time stamps of the collections, in the order they were made (each thread reads ITS clock value)
+        return {'collected': len(rig.push.pushed), 'collected_ts': [sn.ts_nanos for sn in rig.push.pushed],
+                'errors': errs}
     finally:
         rig.close()
 
@@ -434,7 +558,144 @@ def run_siblings(case):
         r.close()
 
 
+def lifecycle_args(case):
+    kind = case.get('action', 'snapshot')
+    args = {'condition': 'cond()'}
+    for k in ('fire_count', 'fire_period'):
+        if k in case['cfg']:
+            args[k] = case['cfg'][k]
+    if kind == 'log':
+        args.update(snapshot='no_collect', log_msg='hit')
+    elif kind == 'metric':
+        args.update(snapshot='no_collect')
+    elif kind == 'span':
+        args.update(snapshot='no_collect', span='line')
+    else:
+        args['frame_type'] = 'no_frame'
+    return args
+
+
+def run_lifecycle(case):
+    """the real TracepointConfigService + TriggerHandler: UPDATE responses go through the real convert_response on
+    protobuf messages (as LongPoll.poll does), NO_CHANGE through update_no_change, registrations through
+    add_custom / remove_custom"""
+    import deep.grpc as g
+    from rig import SyncTasks
+    from deep.api.tracepoint.tracepoint_config import MetricDefinition
+    from deepproto.proto.tracepoint.v1.tracepoint_pb2 import TracePointConfig, Metric
+    rig = Rig(metric=True, span=True)
+    try:
+        svc = rig.config.tracepoints
+        rig.tasks = SyncTasks()
+        svc.set_task_handler(rig.tasks)
+        args = lifecycle_args(case)
+        is_metric = case.get('action') == 'metric'
+
+        def response(present, n):
+            tps = [TracePointConfig(ID='other%d' % n, path='elsewhere.py', line_number=3, args={})] if n % 2 else []
+            if present and case['origin'] == 'service':
+                tps.insert(n % (len(tps) + 1), TracePointConfig(
+                    ID='tp1', path='host.py', line_number=7, args=args,
+                    metrics=[Metric(name='m', type=0)] if is_metric else []))
+            return [TracePointConfig.FromString(t.SerializeToString()) for t in tps]
+        state = {'cond': 'true'}
+
+        def cond():
+            if state['cond'] == 'raise':
+                raise ValueError('condition fails')
+            return state['cond'] == 'true'
+        collected, others, rid, n = [], [], None, 0
+        for op in case['ops']:
+            n += 1
+            k = op['op']
+            try:
+                if k == 'update':
+                    svc.update_new_config(n, 'hash%d' % n, g.convert_response(response(op['present'], n)))
+                elif k == 'no_change':
+                    svc.update_no_change(n)
+                elif k == 'other_custom':
+                    if others and n % 3 == 0:
+                        svc.remove_custom(others.pop())
+                    else:
+                        others.append(svc.add_custom('elsewhere.py', 9, {}, [], []))
+                elif k == 'register':
+                    rid = svc.add_custom('host.py', 7, dict(args), [],
+                                         [MetricDefinition('m', 'COUNTER')] if is_metric else [])
+                elif k == 'unregister':
+                    if rid is not None:
+                        svc.remove_custom(rid)
+                else:
+                    state['cond'] = op['cond']
+                    rig.clock = op['ts']
+                    before = rig.effect_count()
+                    loc = {'cond': cond, 'x': 1}
+                    rig.handler.trace_call(MockFrame('/app/host.py', 'fn', 7, loc), 'line', None)
+                    rig.handler.trace_call(MockFrame('/app/host.py', 'fn', 8, loc), 'line', None)
+                    if rig.effect_count() > before:
+                        collected.append(op['ts'])
+            except BaseException as e:      # noqa: B902
+                return {'raised': f'{k}: {type(e).__name__}: {e}', 'collected': collected}
+        return {'collected': collected}
+    finally:
+        rig.close()
+
+
+def lifecycle_reference(case, per_tracepoint=True):
+    """the statement: while it stays installed, the reference limiter; `per_tracepoint`: an UPDATE response that still
+    contains an installed service tracepoint leaves it installed (the statement's reading)"""
+    cnt = ref_int(case['cfg'].get('fire_count'), 1)
+    per = ref_int(case['cfg'].get('fire_period'), 1000)
+    installed, made, last, out = False, 0, None, []
+    for op in case['ops']:
+        k = op['op']
+        fresh = False
+        if case['origin'] == 'service' and k == 'update':
+            fresh = op['present'] and not (installed and per_tracepoint)
+            installed = op['present']
+        elif case['origin'] == 'code' and k == 'register':
+            fresh = not installed
+            installed = True
+        elif case['origin'] == 'code' and k == 'unregister':
+            installed = False
+        if fresh:
+            made, last = 0, None
+        if k == 'hit' and installed:
+            ts = op['ts']
+            if (cnt == -1 or made < cnt) and (last is None or ts - last >= per * 1_000_000) and op['cond'] == 'true':
+                out.append(ts)
+                made, last = made + 1, ts
+    return out
+
+
+def valid_lifecycle(case):
+    """inside the generator's domain: a tracepoint registered in code is never registered again while registered (that
+    would be a SECOND tracepoint on the same line, with its own budget)"""
+    reg = False
+    for op in case['ops']:
+        if op['op'] == 'register':
+            if reg and case['origin'] == 'code':
+                return False
+            reg = True
+        elif op['op'] == 'unregister':
+            reg = False
+    return True
+
+
+def resent_while_installed(case):
+    if case['origin'] != 'service':
+        return False
+    installed = False
+    for op in case['ops']:
+        if op['op'] == 'update':
+            if op['present'] and installed:
+                return True
+            installed = op['present']
+    return False
+
+
 def run_impl(case):
+    if case['kind'] == 'lifecycle':
+        return run_lifecycle(case)
     if case['kind'] == 'schedule':
         return run_schedule(case)
     if case['kind'] == 'multi':
@@ -449,17 +710,46 @@ def overlapping(case):
     """some thread performs its check while another is between its check and its record."""
     n = len(case['tss'])
     pos = {i: 0 for i in range(n)}
-    for i in case['sched']:
+    for i in full_sched(case):
         if pos[i] == 0 and any(0 < pos[o] < 3 for o in range(n) if o != i):
             return True
         pos[i] += 1
     return False
 
 
+def full_sched(case):
+    """the schedule as driven: run_schedule lets every STARTED thread finish afterwards, in thread order (a started
+    thread has run its check, so this adds no check region)"""
+    sched = list(case['sched'])
+    regions = 4 if case.get('clock_gate') else 3
+    for i in range(len(case['tss'])):
+        n = sched.count(i)
+        if 0 < n < regions:
+            sched += [i] * (regions - n)
+    if case.get('clock_gate'):
+        # the first entry of a thread is its clock read: the model is GIVEN the value read, the region is invisible to it
+        seen, out = set(), []
+        for i in sched:
+            if i in seen:
+                out.append(i)
+            seen.add(i)
+        sched = out
+    return sched
+
+
 def oracle(case, obs):
     if case.get('no_oracle'):
         return []
     v = []
+    if case['kind'] == 'lifecycle':
+        if 'raised' in obs:
+            return ['the agent raised: ' + obs['raised']]
+        exp = lifecycle_reference(case)
+        if obs['collected'] != exp:
+            what = 'registered in code' if case['origin'] == 'code' else 'from the service'
+            return [f'tracepoint {what} ({case["cfg"]}) over {[o["op"] for o in case["ops"] if o["op"] != "hit"]}: '
+                    f'collected {obs["collected"][:8]}.., while installed its limits and conditions permit exactly {exp[:8]}..']
+        return []
     if case['kind'] == 'siblings':
         if 'raised' in obs:
             return ['trace_call raised into the host: ' + obs['raised']]
@@ -486,18 +776,24 @@ def oracle(case, obs):
         if cnt != -1 and obs['collected'] > max(cnt, 0):
             v.append(f'{obs["collected"]} collections with fire_count={cnt}')
         tss = case['tss']
-        spread = max(tss) - min(tss)
-        if spread < per * 1_000_000 and obs['collected'] > 1:
-            v.append(f'{obs["collected"]} collections less than fire_period={per} ms apart')
+        conds = case.get('conds') or [True] * len(tss)
+        got = obs.get('collected_ts', [])
+        if per >= 0:
+            for a, b in zip(got, got[1:]):
+                if b - a < per * 1_000_000:
+                    v.append(f'collections at {a} and {b} (in the order they were made) are less than fire_period={per} ms apart')
+                    break
         if not overlapping(case):
-            # serial: exactly the sequential reference, in the order the threads ran
+            # serial: exactly the sequential reference over the threads' own clock values, in the order the threads ran
             order = []
-            for i in case['sched']:
+            for i in full_sched(case):
                 if i not in order:
                     order.append(i)
-            exp = reference({'cfg': case['cfg'], 'hits': [{'ts': tss[i], 'cond': 'true'} for i in order]})
-            if obs['collected'] != len(exp):
-                v.append(f'serial schedule collected {obs["collected"]}, reference {len(exp)}')
+            exp = reference({'cfg': case['cfg'], 'hits': [{'ts': tss[i], 'cond': 'true' if conds[i] else 'false'}
+                                                          for i in order]})
+            if got != exp:
+                v.append(f'threads {order} ran check…record one after the other with clock values '
+                         f'{[tss[i] for i in order]}: collected at {got}, the sequential history permits exactly {exp}')
         return v
     if 'raised' in obs:
         return ['trace_call raised into the host: ' + obs['raised']]
@@ -526,6 +822,8 @@ def oracle(case, obs):
 def known_finding(case, obs):
     if case['kind'] in ('multi', 'siblings'):
         return None
+    if case['kind'] == 'lifecycle':
+        return 'C04/update-resets-count' if resent_while_installed(case) else None
     if case['kind'] == 'schedule' and overlapping(case):
         return 'C04/2-threads-check-check-record-record'
     if case['kind'] == 'history' and case['cfg'].get('window_in_args'):
@@ -536,6 +834,9 @@ def known_finding(case, obs):
 
 
 def model_request(case, obs):
+    if case['kind'] == 'lifecycle':
+        return {'op': 'ops', 'origin': case['origin'], 'cfg': case['cfg'],
+                'ops': [dict(o, cond=o['cond'] == 'true') if o['op'] == 'hit' else o for o in case['ops']]}
     if case['kind'] == 'siblings':
         return {'op': 'runN', 'cfgs': [case['cfg']] * len(obs.get('collected', {'a': 0})),
                 'hits': [{'ts': h['ts'], 'cond': h['cond'] == 'true'} for h in case['hits']]}
@@ -544,7 +845,9 @@ def model_request(case, obs):
                 'hits': [{'ts': h['ts'], 'cond': h['cond'] == 'true'} for h in case['hits']]}
     cfg = {k: v for k, v in case['cfg'].items() if k in ('fire_count', 'fire_period')}
     if case['kind'] == 'schedule':
-        return {'op': 'conc', 'cfg': cfg, 'tss': case['tss'], 'sched': case['sched']}
+        conds = case.get('conds') or [True] * len(case['tss'])
+        return {'op': 'concT', 'cfg': cfg, 'sched': full_sched(case),
+                'hits': [{'ts': t, 'cond': bool(c)} for t, c in zip(case['tss'], conds)]}
     if not case['cfg'].get('window_in_args'):
         for k in ('window_start', 'window_end'):
             if k in case['cfg']:
@@ -571,19 +874,43 @@ def compare(case, obs, resp):
         if sorted(map(tuple, resp['collected'])) != sorted(map(tuple, got)):
             return [f'collected per action: model {resp["collected"]} vs implementation {obs["collected"]}']
         return []
+    if case['kind'] == 'schedule':
+        d = []
+        got = obs.get('collected_ts', [])
+        if not resp['mutex'] and not overlapping(case):
+            d.append('model: the schedule breaks mutual exclusion of check…record; the harness drove it as serial')
+        if resp['mutex']:
+            # inside the discipline the collections are ordered: compare the time stamps in order
+            if got != resp['collected']:
+                d.append(f'collected time stamps: model {resp["collected"]} vs implementation {got}')
+        elif sorted(got) != sorted(resp['collected']):
+            # racing threads: the model pushes at its `proc` step, the gates release a thread's push together with
+            # its record — same collections, order not comparable
+            d.append(f'collected time stamps (as a multiset): model {resp["collected"]} vs implementation {got}')
+        return d
     if resp['collected'] != obs['collected']:
         return [f'collected: model {resp["collected"]} vs implementation {obs["collected"]}']
     return []
 
 
 def label(case, obs):
+    if case['kind'] == 'lifecycle':
+        kinds = {o['op'] + ('+' if o.get('present') else '-') if o['op'] == 'update' else o['op'] for o in case['ops']}
+        kinds.discard('hit')
+        return 'lifecycle/%s/%s/%s' % (case['origin'], case['action'],
+                                       'resent' if resent_while_installed(case) else
+                                       'reinstalled' if len([o for o in case['ops'] if o['op'] in ('register',) or
+                                                             (o['op'] == 'update' and o['present'] and case['origin'] == 'service')]) > 1
+                                       else 'one-installation')
     if case['kind'] == 'siblings':
         return 'siblings/%s/%s%s' % ('span' if case.get('span') else 'nospan', 'fault' if case.get('metric_fail_at') else 'nofault',
                                      '/badmetric' if case.get('bad_metric') else '')
     if case['kind'] == 'multi':
         return 'multi/%d/%s' % (len(case['cfgs']), 'merged' if case.get('merged') else 'separate')
     if case['kind'] == 'schedule':
-        return 'schedule/' + ('overlap' if overlapping(case) else 'serial')
+        return 'schedule/%dthr/%s%s%s' % (len(case['tss']), 'overlap' if overlapping(case) else 'serial',
+                                          '' if all(case.get('conds') or [True]) else '+condfalse',
+                                          '+clockregion' if case.get('clock_gate') else '')
     n = len(obs.get('collected', []))
     hits = [h for h in case['hits'] if 'op' not in h]
     ops = '+resend' if any(h.get('op') == 'resend' for h in case['hits']) else '+cfgops' if len(hits) != len(case['hits']) else ''
@@ -591,6 +918,9 @@ def label(case, obs):
 
 
 def nontrivial(case, obs):
+    if case['kind'] == 'lifecycle':
+        hits = [o for o in case['ops'] if o['op'] == 'hit' and o['cond'] == 'true']
+        return 0 < len(obs.get('collected', [])) < len(hits) and any(o['op'] != 'hit' for o in case['ops'][1:])
     if case['kind'] == 'siblings':
         c = obs.get('collected', {}).get('snapshot', [])
         return 0 < len(c) < len(case['hits'])
@@ -604,6 +934,14 @@ def nontrivial(case, obs):
 
 
 def shrink(case):
+    if case['kind'] == 'lifecycle':
+        ops = case['ops']
+        for i in range(len(ops)):
+            c = dict(case)
+            c['ops'] = ops[:i] + ops[i + 1:]
+            if c['ops'] and valid_lifecycle(c) and resent_while_installed(c) == resent_while_installed(case):
+                yield c
+        return
     if case['kind'] in ('multi', 'siblings'):
         hs = case['hits']
         for i in range(len(hs)):
